@@ -351,3 +351,11 @@ for _p in ("C01", "C03", "C06", "C13", "C14", "C16"):
     PROPS[_p]["impl_only_traces"] = list(PROPS[_p].get("impl_only_traces", [])) + ["rootapi"]
     PROPS[_p]["rule"] += ("; plus the public API of the root package (plain, Cost function, entry pool, Doorkeeper, both loading builders, HybridCache and both "
                           "HybridLoadingCache builder orders) driven against a plain oracle in regimes that do not depend on the eviction policy, under a virtual clock")
+
+# harness time limits: a loaded machine (several thorough runs side by side) has taken the thorough flight harness past 900 s;
+# a limit only guards against a wedged harness, so it is generous everywhere
+for _p in list(PROPS):
+    _t = dict(PROPS[_p].get("timeout", {}))
+    _t["quick"] = max(_t.get("quick", 900), 900)
+    _t["thorough"] = max(_t.get("thorough", 900), 3000)
+    PROPS[_p]["timeout"] = _t
